@@ -13,7 +13,7 @@ EXPLANATION = ("static analysis (MIR abstract interpretation): every creation / 
                "cut); fee / refund / budget provenance; expired farms (partition side `true`) are the ones closed, the others counted "
                "against the limit; refunds go to the stored owner for budget minus claimed; every constructed message reaches the Response")
 ASSUMPTIONS = ["conservation as numbers over create-expand-claim-close histories is not decided", "epoch manager answers are trusted inputs"]
-TECHNIQUE = "static analysis: guard cut-sets (incl. assumption-restricted), provenance of farm fields and payouts, partition-side agreement"
+TECHNIQUE = "static analysis: guard cut-sets (incl. assumption-restricted), provenance of farm fields and payouts, partition-side agreement, enumeration bound, loop early-exit lint, query-argument provenance (expiry epoch)"
 LEVEL_TEXT = ("Structural obligations over all paths of ManageFarm::{Create,Expand,Close} and UpdateConfig: must-pass-through guards, exact "
               "funds checks under every fee configuration shape (zero fee, same denom, other denom), field provenance, message commit.")
 LEVEL_NOTE = "Not decided: numeric conservation; limit under configurations above MAX_FARMS_LIMIT."
